@@ -10,6 +10,12 @@ class FullInline(absint.DefaultPolicy):
     name = "full"
 
 
+class FullInlineDeep(FullInline):
+    """thorough tier: loops are followed for one more iteration (a block may be visited 3 times on a path instead of 2)"""
+    name = "full-deep"
+    loop_bound = 3
+
+
 class Ctx:
     def __init__(self, tier="quick", repo=None):
         self.tier = tier
@@ -17,6 +23,7 @@ class Ctx:
         self.facts = factsmod.load_all(self.repo)
         self._paths = {}
         self._aborted = {}
+        self._unwound = {}
         self._models = {}
         self.blind = {}          # (cfg, callee, owner fn, closure defs) -> line
         self.steps = 0
@@ -63,15 +70,23 @@ class Ctx:
     def paths(self, cfg, fpath, policy=None, models=None, tag="full"):
         k = (cfg, fpath, tag)
         if k not in self._paths:
-            it = absint.Interp(self.facts[cfg], policy or FullInline(), models or self.models(cfg))
+            if policy is not None and self.tier == "thorough" and getattr(policy, "loop_bound", 2) == absint.DefaultPolicy.loop_bound:
+                policy.loop_bound = 3      # rule-specific inlining policies follow loops one iteration further as well
+            it = absint.Interp(self.facts[cfg], policy or (FullInlineDeep() if self.tier == "thorough" else FullInline()), models or self.models(cfg))
             ps = it.run(fpath)
             self.steps += it.steps
             self.npaths += len(ps)
             self._paths[k] = ps
             self._aborted[k] = it.aborted
+            self._unwound[k] = it.unwound
             for q, fp, clos, ln in it.blind:
                 self.blind.setdefault((cfg, q, fp, clos), ln)
         return self._paths[k]
+
+    def unwound(self, cfg, fpath, tag="full"):
+        """event sequences of unwinding out of user-code sites through drop guards (empty when the crate has no drop guard)"""
+        self.paths(cfg, fpath, tag=tag)
+        return self._unwound.get((cfg, fpath, tag), [])
 
     def aborted(self, cfg, fpath, tag="full"):
         """paths of fpath that end in a certain panic (computed together with paths())"""
